@@ -146,6 +146,7 @@ type CMSParts struct {
 	SignedAttrs [2]int // signedAttrs [0] element
 	MsgDigest   [2]int // the digest bytes inside the message-digest attribute
 	Signature   [2]int // signature value bytes
+	Imprint     [2]int // ETSI.RFC3161: the document hash inside TSTInfo.messageImprint
 }
 
 func hashOf(h crypto.Hash, b []byte) []byte {
